@@ -1,6 +1,6 @@
 #!/usr/bin/env python3
 """Regenerates /verif/MANIFEST.json from the table below (kept valid at all times)."""
-import json
+import json, subprocess
 
 BASE_OFF = ("cd /repo && PATH=/opt/veriftools/go1.26.8/bin:$PATH GOTOOLCHAIN=local GOFLAGS=-mod=mod "
             "GOPROXY=off GOSUMDB=off go test -json -vet=off -count=1 -timeout 25m ./...")
@@ -10,7 +10,7 @@ TECH = "contract-based deductive verification: VCs generated from go/ssa of the 
 # property -> (level text, level note, design ref)
 CLAIMED = {
     "C04": ("Soundness of the min/max overlap test proved for every operator, operand, block range, saturation state and row value in R∪{±inf} (EvaluateMinMaxCondition against covers/sat), range update (UpdateMinMaxIndex) and unsigned clamping proved against their mathematical specification; all loops by inductive invariant, no bound.",
-            "Trusted: go/ssa, the SSA->SMT encoder, the solvers. Floats modelled as extended reals (exact for floor/ceil/compare). Tree induction and ingest/merge links: see DESIGN §7.", "§7 C04"),
+            "Trusted: go/ssa, the SSA->SMT encoder, the solvers. Floats modelled as extended reals (exact for floor/ceil/compare). Conversions (toInt64/ConvertToMinMaxInt64/ConvertToInt64, every dynamic numeric kind incl. named types) proved on the repaired tree (fix b2d7c7b). Tree induction and ingest/merge links: see DESIGN §7.", "§7 C04"),
     "C12": ("Row-group limit test (blocksWithinMergeLimits) proved equal to its mathematical specification for all shapes and limits, with the overflow-free range stated as a precondition.",
             "Trusted: go/ssa, encoder, solvers. Grouping loops of processPartitionBlocks/identifyFileMergeGroups: see DESIGN §7 for what is and is not yet under contract.", "§7 C12"),
     "C19": ("No-panic / in-bounds obligations and exact functional contracts (validSection) for the framing validators the read path relies on, proved for all 2^64 values of every offset and size field (compare-by-subtraction proved overflow-proof under the stated preconditions).",
@@ -47,6 +47,15 @@ CLAIMED.update({
             "The counting argument (tokens <= capacity => reads <= MaxQueryConcurrency) is on paper (DESIGN §7 C22).", "§7 C22"),
     "C23": ("Accounting obligations: processDataBlock records exactly one stats entry on every exit path (never a skipped one); recordUnreadBlocks records one non-skipped entry per block; recordBlockStats appends exactly one entry; Stats counts every recorded block exactly once as skipped or processed and returns a copy of the entries.",
             "Per-block sums (RowsScanned/BytesScanned equal the per-block sums) and evaluateBlockFilters' exactly-once accounting are next (DESIGN §7 C23).", "§7 C23"),
+})
+
+CLAIMED.update({
+    "C10": ("Limit obligation on the ingest actor's step function: whenever processIngestRequest returns having retained the batch's waiter without calling triggerFlush, both buffer-level counters are strictly below MaxBufferedRows and MaxBufferedBytes (so reaching either limit flushes in the same call), for every batch shape and configuration.",
+            "The ticker-driven time bound is a timing statement and is not decided; partition-level limits are covered only through the same post-state (DESIGN §7 C10).", "§7 C10"),
+    "C24": ("Pruning obligations proved per function: FilterDataBlocks returns only blocks the prefilter admits (each result is one of the inputs and passed TestBlockPrefilter); the file stage dispatches a file only with a non-empty admitted block list and, with bloom conditions, a positive file-filter verdict; evaluateBlockFilters acquires no handle and opens nothing when the query has no bloom/regex conditions; the chunk reader and row-data readers read only inside the extents the metadata declares (readFullAt assertion, validSection/checkExtentWithinFile contracts).",
+            "Store read log is ghost (opens/hAcquired counters via extern contracts, assumed). Bloom library Test is an extern (DESIGN §7 C24).", "§7 C24"),
+    "C25": ("Constructor and builder semantics proved for every valuation of the leaves: flattenExpressions/flattenPrefilterExpressions/flattenRegexExpressions preserve 'all children true' and 'some child true' of the input list for the flattened operator (inductive loop invariants, unbounded lists), And/Or/PrefilterAnd/PrefilterOr/RegexAnd/RegexOr return a node of the stated operator whose children have that meaning, QueryBuilder.where/addBloomExpression/Build/MatchPrefilter assemble implicit conditions under a single AND and keep the explicit expression.",
+            "Evaluation is stated one level deep over an arbitrary valuation of child nodes (the evaluators themselves are under contract in C04/C24); JSON round-trip depends on encoding/json and is not decided by contracts (DESIGN §7 C25).", "§7 C25"),
 })
 
 NOT_APPLICABLE = {
@@ -90,7 +99,7 @@ def main():
             "guard": "verif",
             "enable": "-tags verif (the only hook is the comment-only file /repo/contracts_verif.go)",
             "baseline_off_cmd": BASE_OFF,
-            "source_commits": [],
+            "source_commits": subprocess.run(["git", "-C", "/repo", "log", "--format=%H", "--", "contracts_verif.go"], capture_output=True, text=True).stdout.split(),
             "add_only": True,
         },
         "engines": [{
